@@ -104,6 +104,9 @@ package target
 //@   ensures discard_or_close_on_error: r1 != nil && ntrace() > n0 ==>
 //@            emitted(ntrace()-1) == Discard || emitted(ntrace()-1) == DriverClose
 //@   ensures close_is_last: forall(i, n0, ntrace(), emitted(i) == DriverClose ==> i == ntrace()-1)
+//@   internal close_only_on_dead_connection: r1 != nil && ntrace() > n0 && emitted(ntrace()-1) == DriverClose ==>
+//@            (called(Contains, 0) && callres(Contains, 0) && callarg(Contains, 0, 1) == "EOF") ||
+//@            (called(Contains, 1) && callres(Contains, 1) && callarg(Contains, 1, 1) == "EOF")
 
 //@ func (*ncTarget).setRunning
 //@   props C18 C09
